@@ -279,7 +279,7 @@ def coq_printed_values(out: str) -> list[str]:
         if line.startswith("     = "):
             cur = [line[7:]]
         elif line.startswith("     : ") and cur is not None:
-            vals.append(" ".join(s.strip() for s in cur))
+            vals.append(re.sub(r"\(\s+", "(", re.sub(r"\s+\)", ")", " ".join(s.strip() for s in cur))))
             cur = None
         elif cur is not None:
             cur.append(line)
@@ -324,7 +324,9 @@ class Result:
         self.violations.append((p, no_input))
 
     def known(self, text: str):
-        self.known_lines.append(text)
+        key = text.split(":")[0]
+        if not any(k.split(":")[0] == key for k in self.known_lines):
+            self.known_lines.append(text)
 
     def finish(self) -> int:
         EVID.mkdir(exist_ok=True)
